@@ -18,12 +18,15 @@ run_one() { # kind id patch
   nr=""; [ $kind = mutant ] && nr=1   # must-fail runs skip the retry pass (any undischarged obligation counts)
   out=$(VERIF_NO_RETRY=$nr VERIF_REPO=$d/repo VERIF_OUT=$d/out VERIF_EVIDENCE_DIR=$d/ev engine/bin/govc check $id quick 2>&1)
   nviol=$(echo "$out" | grep -c '^VIOLATION')
+  # must-fail runs skip the retry pass, so an obligation that merely times out under the self-test's parallel load shows
+  # up as a violation: obligations known to do that (selftest/noise.txt, one regex per line) do not count as a catch
+  if [ $kind = mutant ] && [ -s /verif/selftest/noise.txt ]; then nviol=$(echo "$out" | grep '^VIOLATION' | grep -v -E -f /verif/selftest/noise.txt | grep -c .); fi
   nrepro=$(echo "$out" | grep '^VIOLATION' | grep -v 'bounded:' | grep -vc 'no-failing-input-found$')
   rm -rf $d
   # <name>.reproduces beside a must-fail patch: the solver's model must also replay on the real code
   if [ $kind = mutant ] && [ -f ${patch%.patch}.reproduces ] && [ $nrepro -eq 0 ]; then echo "MISS must-reproduce $id/$name: no violation was replayed on the real code"; return 1; fi
   if [ $kind = mutant ]; then
-    if [ $nviol -gt 0 ]; then echo "ok   must-fail $id/$name ($nviol violations: $(echo "$out" | grep '^VIOLATION' | head -1 | sed 's/.*obligation=//' | cut -c1-90))"; else echo "MISS must-fail $id/$name: no violation reported"; return 1; fi
+    if [ $nviol -gt 0 ]; then echo "ok   must-fail $id/$name ($nviol violations: $(echo "$out" | grep '^VIOLATION' | grep -v -E -f /verif/selftest/noise.txt | head -1 | sed 's/.*obligation=//' | cut -c1-90))"; else echo "MISS must-fail $id/$name: no violation reported"; return 1; fi
   else
     if [ $nviol -eq 0 ]; then echo "ok   must-pass $id/$name"; else echo "FALSE-ALARM must-pass $id/$name: $(echo "$out" | grep '^VIOLATION' | head -2)"; return 1; fi
   fi
